@@ -53,4 +53,14 @@ theorem C17_removed_never_called_nested (s : Proto) (hs : s.Sorted) (t : Nat) (h
     ∃ new, ncallsOf (s.reach ops).log = ncallsOf s.log ++ new ∧ ∀ c ∈ new, c.1 ≠ t :=
   Ross.removed_never_called_nested s hs t ht ops hops
 
+/-! non-vacuity (kernel-evaluated): three handlers get ids 0, 1, 2; id 1 is removed; the next registration gets the least
+free id 1 again and the other two stay under their ids; removing id 1 a second time (before that) reports
+`NoSuchHandler` -/
+example :
+    let s3 := ((((Proto.init 5 [] []).add ⟨10, false, []⟩).1.add ⟨11, true, []⟩).1.add ⟨12, false, []⟩).1
+    let s4 := (s3.remove 1).1
+    ((s4.add ⟨13, false, []⟩).2, ((s4.add ⟨13, false, []⟩).1.handlers.map fun x => (x.1, x.2.token)),
+      (match (s4.remove 1).2 with | .error .noSuchHandler => true | _ => false)) =
+      (1, [(0, 10), (1, 13), (2, 12)], true) := by decide
+
 end Ross.Props
